@@ -684,6 +684,15 @@ func ReplayMain(t *testing.T) {
 			fmt.Println(l)
 		}
 	}
+	if os.Getenv("SIM_PARKS") != "" {
+		for _, e := range r.Events {
+			if e.Kind == EvPark {
+				fmt.Printf("PARK %d t=%s g%d %v\n", e.Seq, fmtT(e.T), e.Gen, e.Labels)
+			} else {
+				fmt.Printf("EV %d t=%s g%d %s %s %s inv=%d %s\n", e.Seq, fmtT(e.T), e.Gen, e.Kind, e.Obj, e.Op, e.Inv, e.Note)
+			}
+		}
+	}
 	for _, v := range vs {
 		if v.Class == rep.Class {
 			fmt.Printf("REPRODUCED property=%s class=%q\n  %s\n  witness events %v\n", v.Prop, v.Class, v.Msg, v.Seqs)
